@@ -1103,6 +1103,14 @@ class HistoryRunner:
                 if op == "seek":
                     state.pos = min(step[1], len(text))
                     continue
+                if op == "atomic":
+                    # the environment is inside an atomic rule (or leaves it again): no implicit
+                    # trivia, and whatever else an implementation does differently there
+                    if step[1]:
+                        state.atomic_depth += 1
+                    else:
+                        state.atomic_depth.zero()
+                    continue
                 if op in ("commit", "fail"):
                     if open_brackets == 0:
                         continue
@@ -1254,8 +1262,14 @@ def gen_history(rng: random.Random, tb: dict):
                 steps.append(["commit"])
         if rng.random() < 0.5:
             steps.append(["seek", rng.randint(0, len(text))])
+    p_atomic = rng.choice((0.0, 0.0, 0.0, 0.04))
+    if rng.random() < 0.15:
+        steps.insert(rng.randrange(len(steps) + 1), ["atomic", 1])
+        p_atomic = rng.choice((0.0, 0.03))
     for _ in range(n):
         r = rng.random()
+        if p_atomic and rng.random() < p_atomic:
+            steps.append(["atomic", rng.choice((0, 1))])
         if r < 0.12:
             steps.append(["seek", rng.randint(0, max(0, len(text)))])
         elif r < 0.22:
